@@ -31,52 +31,6 @@ import TakVerif.Spec.TreeInv
 namespace Tak.Driver.Tree
 open Tak.Ser Tak.Tree
 
-/-! #### game-over test: a faithful small copy of `Position.winner()` (game.py), used to
-    instantiate `Cfg.outcome` until Model/Winner.lean (C02) is part of the tree -/
-
-def roadSquare (p : Pos) (c : Color) (x y : Int) : Bool :=
-  p.inBounds x y &&
-  match p.atI x y with
-  | pc :: _ => pc.kind.isRoad && pc.color == c
-  | [] => false
-
-/-- `_walk`: depth-first flood fill from the seeds over road squares of colour `c` -/
-def walk (p : Pos) (c : Color) (horiz : Bool) : Nat → List (Int × Int) → List (Int × Int) → Bool
-  | 0, _, _ => false
-  | _ + 1, _, [] => false
-  | fuel + 1, seen, (x, y) :: q =>
-    if (x, y) ∈ seen then walk p c horiz fuel seen q
-    else if !roadSquare p c x y then walk p c horiz fuel ((x, y) :: seen) q
-    else if horiz && x == (p.size : Int) - 1 then true
-    else if !horiz && y == (p.size : Int) - 1 then true
-    else walk p c horiz fuel ((x, y) :: seen) ((x, y - 1) :: (x, y + 1) :: (x - 1, y) :: (x + 1, y) :: q)
-
-def hasRoadOf (p : Pos) (c : Color) : Bool :=
-  let fuel := p.size + 4 * ((p.size + 2) * (p.size + 2)) + 1
-  let left := (List.range p.size).map fun (i : Nat) => ((0 : Int), (i : Int))
-  let top := (List.range p.size).map fun (i : Nat) => ((i : Int), (0 : Int))
-  walk p c true fuel [] left.reverse || walk p c false fuel [] top.reverse
-
-def flatsWinner (p : Pos) : Option Color :=
-  let cnt (c : Color) : Nat :=
-    (p.board.filter fun sq => match sq with
-      | pc :: _ => pc.kind == .flat && pc.color == c
-      | [] => false).length
-  let w := cnt .white
-  let b := cnt .black
-  if w > b then some .white else if w < b then some .black else none
-
-/-- `Position.winner()`: `none` = `(None, None)` -/
-def outcome (p : Pos) : Option (Option Color) :=
-  let w := hasRoadOf p .white
-  let b := hasRoadOf p .black
-  if w && b then some (some p.toMove.flip)
-  else if w then some (some .white)
-  else if b then some (some .black)
-  else if p.board.all (fun sq => !sq.isEmpty) || p.wStones + p.wCaps == 0 || p.bStones + p.bCaps == 0 then
-    some (flatsWinner p)
-  else none
-
 /-! #### parsing -/
 
 def parseRat (s : String) : Option Rat :=
@@ -197,7 +151,7 @@ def parseCfg : List String → Option (ParsedCfg × List String)
     let (tbl, rest) ← parseMoves ntbl rest
     let own := if ntbl = 0 then Gen.allMovesForSize tsize else tbl
     let table : Nat → List Move := fun n => if n = tsize then own else Gen.allMovesForSize n
-    pure ({ cfg := { cutoff := cutoff, noise := noise != 0, mix := mix, outcome := outcome, table := table },
+    pure ({ cfg := { cutoff := cutoff, noise := noise != 0, mix := mix, outcome := realOutcome, table := table },
             tol := ⟨ptol, vtol⟩ }, rest)
   | _ => none
 
